@@ -436,6 +436,18 @@ def seeded_for(pid):
     return out
 
 
+def benign_all():
+    from .framework import VERIF
+    base = os.path.join(VERIF, 'benign')
+    out = []
+    if os.path.isdir(base):
+        for d in sorted(os.listdir(base)):
+            f = os.path.join(base, d, 'patch.diff')
+            if os.path.exists(f):
+                out.append((d, open(f, encoding='utf-8').read()))
+    return out
+
+
 def mutants_for(pid):
     from .mutants import MUTANTS
     return [m for m in MUTANTS if pid in m['props']]
@@ -477,12 +489,25 @@ def thorough_extra(program, pid, ctx, jobs=None):
             stale.append('seeded/' + sid)
         else:
             seed_args.append(('seeded/' + sid, pid, s2))
+    ben_args = []
+    for bid, diff in benign_all():
+        s2 = apply_unified_diff(sources, diff)
+        if s2 is None:
+            stale.append('benign/' + bid)
+        else:
+            ben_args.append(('benign/' + bid, pid, s2))
     t0 = time.time()
     with multiprocessing.Pool(jobs) as pool:
         twin_res = pool.map(_twin_job, twin_args)
         mut_res = pool.map(_mutant_job, mut_args)
         ctl_res = pool.map(_mutant_job, ctl_args)
         seed_res = pool.map(_mutant_job, seed_args)
+        ben_res = pool.map(_mutant_job, ben_args)
+    for mid, _, v, e, n in ben_res:
+        new = set(map(tuple, v)) - base_viol
+        if new or e:
+            errors.append('behaviour-preserving refactoring %s changes the verdicts of %s: new=%s errors=%s'
+                          % (mid, pid, sorted(new)[:3], e[:2]))
     seeds_reported = []
     for mid, _, v, e, n in seed_res:
         new = set(map(tuple, v)) - base_viol
@@ -524,6 +549,7 @@ def thorough_extra(program, pid, ctx, jobs=None):
         'selfvalidation': {
             'silent_twins': twins_report,
             'controls_run': len(ctl_res),
+            'benign_refactorings_run': len(ben_res),
             'seeded_changes_run': len(seed_res),
             'seeded_changes_reported': len(seeds_reported),
             'seeded_samples': seeds_reported[:6],
@@ -534,7 +560,7 @@ def thorough_extra(program, pid, ctx, jobs=None):
             'fired_samples': fired[:12],
             'wall_s': round(time.time() - t0, 2),
         },
-        'programs': 1 + len(twin_res) + len(mut_res) + len(ctl_res) + len(seed_res),
+        'programs': 1 + len(twin_res) + len(mut_res) + len(ctl_res) + len(seed_res) + len(ben_res),
     }
     return extra, errors
 
@@ -543,7 +569,8 @@ def main(argv=None):
     import argparse
     from .rules import PROPERTIES
     ap = argparse.ArgumentParser(prog='sa.selftest')
-    ap.add_argument('what', choices=['twins', 'mutants', 'all'])
+    ap.add_argument('what', choices=['twins', 'mutants', 'benign', 'seeds', 'all'])
+    ap.add_argument('--only', action='append', help='benign/seeded ids (prefix match)')
     ap.add_argument('--pid', action='append')
     ap.add_argument('--twin', action='append')
     ap.add_argument('--jobs', type=int, default=min(16, os.cpu_count() or 4))
@@ -616,6 +643,50 @@ def main(argv=None):
                     rc = 1
                     print('CONTROL %-24s %s ALARMS: %s %s' % (mid, pid, sorted(new)[:3], e[:1]))
             print('%d control runs' % len(res))
+        if args.what in ('benign', 'all'):
+            jobs = []
+            for bid, diff in benign_all():
+                if args.only and not any(bid.startswith(o) for o in args.only):
+                    continue
+                s2 = apply_unified_diff(sources, diff)
+                if s2 is None:
+                    print('STALE  benign/%s does not apply' % bid)
+                    rc = 1
+                    continue
+                jobs.extend((bid, pid, s2) for pid in pids)
+            res = pool.map(_mutant_job, jobs)
+            bad = set()
+            for mid, pid, v, e, n in res:
+                new = set(map(tuple, v)) - base[pid][0]
+                if new or e:
+                    rc = 1
+                    bad.add(mid)
+                    print('BENIGN %-8s %s ALARMS: %s %s' % (mid, pid, sorted(new)[:4], e[:2]))
+            print('%d benign runs, %d refactorings alarmed: %s' % (len(res), len(bad), sorted(bad)))
+        if args.what in ('seeds', 'all'):
+            jobs = []
+            for pid in pids:
+                for sid, diff in seeded_for(pid):
+                    if args.only and not any(sid.startswith(o) for o in args.only):
+                        continue
+                    s2 = apply_unified_diff(sources, diff)
+                    if s2 is None:
+                        print('STALE  seeded/%s does not apply' % sid)
+                        rc = 1
+                        continue
+                    jobs.append((sid, pid, s2))
+            res = pool.map(_mutant_job, jobs)
+            nf = 0
+            for mid, pid, v, e, n in res:
+                new = set(map(tuple, v)) - base[pid][0]
+                if new:
+                    nf += 1
+                    if args.v:
+                        print('seed   %-8s %s by %s' % (mid, pid, sorted({r for r, _ in new})))
+                else:
+                    rc = 1
+                    print('SEED-MISSED %-8s %s %s' % (mid, pid, e[:1]))
+            print('%d seeded runs, %d reported' % (len(res), nf))
     return rc
 
 
